@@ -1,4 +1,5 @@
 import Sm9.Proofs.Tower
+import Sm9.Proofs.SpecField
 import Sm9.Proofs.TowerField
 import Sm9.Proofs.MontSop
 import Sm9.Model.Api
@@ -55,5 +56,15 @@ theorem inverse_zero : (0 : Fq2).inverse = none := Fq2.inverse_zero
 /-- non-vacuity: a concrete product with all four coefficients non-trivial -/
 example : (Fq2.new (Fq.ofNat 3) (Fq.ofNat 5)) * (Fq2.new (Fq.ofNat 7) (Fq.ofNat 11))
     = Fq2.new (Fq.ofNat (q - 89)) (Fq.ofNat 68) := by decide +kernel
+
+/-! ## against the independent implementation of `F_q[u]/(u²+2)`
+
+`Sm9.Spec.Q2` (the oracle of the correspondence run) implements the quadratic extension on pairs of naturals (real, imaginary)
+with `u² = −2` written out; `toQ2 x = (x.c0, x.c1)`.  Its operations are the model's (Proofs/SpecField.lean). -/
+open Sm9.SpecField in
+theorem agrees_with_independent_quadratic_extension (x y : Fq2) :
+    Spec.Q2.add (toQ2 x) (toQ2 y) = toQ2 (x + y) ∧ Spec.Q2.sub (toQ2 x) (toQ2 y) = toQ2 (x - y) ∧
+    Spec.Q2.mul (toQ2 x) (toQ2 y) = toQ2 (x * y) ∧ Spec.Q2.neg (toQ2 x) = toQ2 (-x) ∧ Spec.Q2.inv (toQ2 x) = toQ2 x⁻¹ :=
+  ⟨toQ2_add x y, toQ2_sub x y, toQ2_mul x y, toQ2_neg x, toQ2_inv x⟩
 
 end Sm9.C12
